@@ -3,6 +3,7 @@ package main
 // C01..C06, C08, C09, C10: properties of Flatten decided by TLC on states recorded from the real code (Trace_Flatten).
 
 import (
+	"bytes"
 	"encoding/json"
 	"fmt"
 	"os"
@@ -394,6 +395,39 @@ func checkFlattenOne(prop, tier string, seed int64) int {
 	if len(drift) > 0 {
 		rep.Extra["model_drift_by_phase"] = drift
 		rep.Notes = append(rep.Notes, fmt.Sprintf("model-drift: %v (phase transitions not explained by Flatten.tla; properties are judged on the recorded states regardless)", drift))
+	}
+	// conformance of the flatten context (Dedup.tla): every logged de-duplication step is an enabled step of the model
+	ctxOK, ctxChecked, ctxDrift, ctxWithStrip := 0, 0, map[string]int{}, 0
+	for _, run := range fc.runs {
+		if v, ok := fc.tlc.Verdicts[run.tid]; ok {
+			if cv, has := v["CTX"]; has {
+				ctxChecked++
+				if cv {
+					ctxOK++
+				}
+			}
+		}
+	}
+	for _, d := range fc.tlc.Diags {
+		if _, p, clause, _ := diagShape(d); p == "CTX" {
+			ctxDrift[clause]++
+		}
+	}
+	for i := range fc.runs {
+		if r := fc.resps[i]; r != nil && r.Rec != nil && bytes.Contains(r.Rec, []byte(`"ev":"strip.one"`)) {
+			if v, ok := fc.tlc.Verdicts[fc.runs[i].tid]; ok {
+				if _, has := v["CTX"]; has {
+					ctxWithStrip++
+				}
+			}
+		}
+	}
+	rep.Extra["context_conformant_runs"] = ctxOK
+	rep.Extra["context_checked_runs"] = ctxChecked
+	rep.Extra["context_checked_runs_with_deduplication"] = ctxWithStrip
+	if len(ctxDrift) > 0 {
+		rep.Extra["context_drift"] = ctxDrift
+		rep.Notes = append(rep.Notes, fmt.Sprintf("context-drift: %v (de-duplication steps not explained by Dedup.tla; properties are judged on the recorded states regardless)", ctxDrift))
 	}
 	rep.Extra["tlc_wall_s"] = fc.tlc.WallS
 	rep.Extra["runs"] = len(fc.runs)
